@@ -48,6 +48,8 @@ pub enum LOp {
 pub enum BOp {
     Provides(String),
     Requires(String, Option<TV>),
+    /// `Require::metadata` called twice on the same requirement: the second value (possibly an empty table) is the one set
+    RequiresTwice(String, TV, TV),
     Or,
 }
 
@@ -115,6 +117,7 @@ pub fn plan_strategy() -> impl Strategy<Value = Vec<BOp>> {
     let bop = prop_oneof![
         3 => nasty_string(8).prop_map(BOp::Provides),
         3 => (nasty_string(8), proptest::option::of(meta_table(2))).prop_map(|(n, m)| BOp::Requires(n, m)),
+        1 => (nasty_string(8), meta_table(2), prop_oneof![1 => Just(TV::Table(vec![])), 1 => meta_table(2)]).prop_map(|(n, a, b)| BOp::RequiresTwice(n, a, b)),
         3 => Just(BOp::Or),
     ];
     proptest::collection::vec(bop, 0..10)
@@ -200,6 +203,7 @@ fn doc_json(d: &Doc) -> Value {
         Doc::BuildPlan(ops) => json!({"build_plan": ops.iter().map(|o| match o {
             BOp::Provides(n) => json!({"provides": n}),
             BOp::Requires(n, m) => json!({"requires": n, "metadata": m.as_ref().map(TV::to_json)}),
+            BOp::RequiresTwice(n, a, b) => json!({"requires": n, "metadata": b.to_json(), "earlier_metadata": a.to_json()}),
             BOp::Or => json!("or"),
         }).collect::<Vec<_>>()}),
         Doc::Lcm(t, m) => json!({"lcm": {"types": t.map(|(l, b, c)| json!([l, b, c])), "meta": match m {
@@ -236,6 +240,8 @@ fn doc_from_json(v: &Value) -> Doc {
                 BOp::Or
             } else if let Some(n) = o.get("provides") {
                 BOp::Provides(n.as_str().unwrap().into())
+            } else if o.get("earlier_metadata").is_some() {
+                BOp::RequiresTwice(o["requires"].as_str().unwrap().into(), TV::from_json(&o["earlier_metadata"]), TV::from_json(&o["metadata"]))
             } else {
                 BOp::Requires(o["requires"].as_str().unwrap().into(), if o["metadata"].is_null() { None } else { Some(TV::from_json(&o["metadata"])) })
             }
@@ -542,7 +548,7 @@ fn check(ctx: &Ctx, env: &Env, d: &Doc) -> Check {
 }
 
 pub fn run(ctx: &Ctx) {
-    ctx.set_rule("generated programs over the public builders and types: LaunchBuilder/ProcessBuilder call sequences (process, processes, label(s), slice(s), arg, args, default, working_directory in any order and multiplicity; in ~5% a final non-UTF-8 working directory, which must be refused), BuildPlanBuilder sequences of provides/requires(+metadata)/or incl. leading, trailing and consecutive or, LayerContentMetadata (types None / all 8 flag combinations; generic, absent and typed metadata), Store, ExecDProgramOutput (through a helper process whose fd 3 is a file), PackageDescriptor; strings weighted towards quotes, backslashes, control characters, NUL, DEL, U+0085, U+2028, BOM, '#', '=', '[', astral characters and the empty string; metadata tables nest all TOML value kinds with arbitrary keys. Oracle: Python tomllib must parse the written text; a reader knowing only the spec's field names and defaults must recover the independently computed model; unknown keys in the output are a violation; libcnb re-reads an equal value where it can. Non-trivial: payload contains a character needing TOML escaping or metadata nested >= 2, or the builder sequence has >= 2 `or` / an empty group; distinct = hash of the program.");
+    ctx.set_rule("generated programs over the public builders and types: LaunchBuilder/ProcessBuilder call sequences (process, processes, label(s), slice(s), arg, args, default, working_directory in any order and multiplicity; in ~5% a final non-UTF-8 working directory, which must be refused), BuildPlanBuilder sequences of provides/requires(+metadata, also set twice — the second value, possibly empty, counts)/or incl. leading, trailing and consecutive or, LayerContentMetadata (types None / all 8 flag combinations; generic, absent and typed metadata), Store, ExecDProgramOutput (through a helper process whose fd 3 is a file), PackageDescriptor; strings weighted towards quotes, backslashes, control characters, NUL, DEL, U+0085, U+2028, BOM, '#', '=', '[', astral characters and the empty string; metadata tables nest all TOML value kinds with arbitrary keys. Oracle: Python tomllib must parse the written text; a reader knowing only the spec's field names and defaults must recover the independently computed model; unknown keys in the output are a violation; libcnb re-reads an equal value where it can. Non-trivial: payload contains a character needing TOML escaping or metadata nested >= 2, or the builder sequence has >= 2 `or` / an empty group; distinct = hash of the program.");
     ctx.assume("datetimes are restricted to local date-times/dates without fractional seconds so that their text form is reader-independent");
     let env = Env { scratch: Scratch::new("c07"), reader: RefCell::new(TomlReader::new()) };
     for (_p, v) in ctx.regress_files() {
@@ -669,6 +675,13 @@ pub fn build_plan(ops: &[BOp]) -> Result<(libcnb_data::build_plan::BuildPlan, Pl
                 }
                 b = b.requires(r);
                 groups.last_mut().unwrap().1.push((n.clone(), m.clone().unwrap_or(TV::Table(vec![]))));
+            }
+            BOp::RequiresTwice(n, first, second) => {
+                let mut r = Require::new(n.clone());
+                r.metadata(first.to_toml_table()).map_err(|e| Fail::new("C07:require-metadata-rejected", e.to_string()))?;
+                r.metadata(second.to_toml_table()).map_err(|e| Fail::new("C07:require-metadata-rejected", e.to_string()))?;
+                b = b.requires(r);
+                groups.last_mut().unwrap().1.push((n.clone(), second.clone()));
             }
             BOp::Or => {
                 b = b.or();
